@@ -13,8 +13,11 @@ import vlib
 from props import c02
 
 RULE_FED = ("fedlab part: (a) two hand-written federations -- an interface whose implementers are entities extended by two other "
-            "subgraphs with a @requires field, a shareable field and a second key (16 operations x 7 protected sets), and a "
-            "federation with mutation root fields in two subgraphs (9 operations x 4 protected sets) -- and (b) generated "
+            "subgraphs with a @requires field, a shareable field and a second key (27 operations x 12 protected sets), and a "
+            "federation with mutation root fields in two subgraphs (9 operations x 4 protected sets); the interface federation also "
+            "has object- and list-valued interface fields (one covariant) selected bare and under `... on T`, and three @defer "
+            "operations (for those only sentinel_absent over all flushed frames, fetch_gate on the request log and "
+            "collector_complete on the questions asked are evaluated) -- and (b) generated "
             "federations (gvh/fedlab, all knobs; universes re-written so that every stored String/ID leaf is a unique "
             "sentinel) with 5 generated operations each and two protected sets per configuration drawn from the coordinates "
             "the operations reach (plan-time and runtime types, plus up to two unreached ones; closed across interfaces "
@@ -27,18 +30,25 @@ RULE_FED = ("fedlab part: (a) two hand-written federations -- an interface whose
             "non-null value in the un-authorized response; an operation line is non-trivial when the plan carries a protected "
             "coordinate. Distinct by hash of the line.")
 
-# narrow keys of the findings of the fedlab part: (key, regex on the failed clause + detail)
 # narrow keys of the recorded findings of the fedlab part: (key, regex on the failed clause + detail).
 # Two earlier findings are REPAIRED in /repo (work/c14_fix_*.patch) and deliberately have no mapping any more, so
 # that a regression shows as a VIOLATION; their reproductions stay in the corpus (fixture stream) as passing cases:
 #   gate-entity-fetch-below-fragment-has-no-root-fields  (clause fetch_gate/no-rootfields)  plan/path_builder_visitor.go fieldIsChildNode
 #   merged-field-keeps-rule-of-unconditioned-occurrence  (clauses */merged)                 postprocess/merge_fields.go
 KNOWN = [
+    ("deferred-fetch-never-gated", r"^fetch_gate/deferred "),
     ("prefetch-gate-starves-fetch-depending-on-denied-input",
      r"^(requires_input_intact |(allowed_untouched|propagates_like_null)/input-fetch-held-back\[)"),
 ]
 
 KNOWN_TEXT = {
+    "deferred-fetch-never-gated":
+        "resolve.go resolveDeferSingle creates the loader of every deferred group with a nil FieldAuthorization "
+        "(NewLoader(..., dc.db, nil)); isFetchAuthorizedFromCache returns true when l.authorization == nil, so in pre-fetch mode a "
+        "deferred fetch is sent even when all of its root fields are denied: `{ me { email ... @defer { secret title } } }` with "
+        "User.secret and User.title denied still sends `_entities{... on User{__typename secret title}}` to home, while the same "
+        "selection without @defer is held back. The deferred payload is nulled and reported by the renderer; only request-not-sent "
+        "is lost (proposed fix: carry the request's FieldAuthorization in deferContext, work/c14_proposed_fix_deferred-fetch-never-gated.patch).",
     "prefetch-gate-starves-fetch-depending-on-denied-input":
         "pre-fetch mode authorizes (and gates on) root fields the planner added itself: a protected @requires input or @key field "
         "that the client did not select is put before the batch authorizer, and when it is denied the fetch that only provides it "
@@ -91,6 +101,8 @@ def _distribution(cases, results):
                 d["runs_protected_two_paths"] += int(m.group(4)) > 0
                 d["requests_sent"] += int(m.group(7))
                 d["requests_saved_vs_baseline"] += max(0, int(m.group(8)) - int(m.group(7)))
+            if "(deferred t)" in c:
+                d["runs_deferred"] = d.get("runs_deferred", 0) + 1
             if "(ref (skip))" in c:
                 d["runs_reference_skipped_mixed"] += 1
             m = re.search(r"\(dependent (\d+)\)", c)
@@ -145,7 +157,7 @@ def run_fed(chk):
     exe, model = b
     quick = chk.tier == "quick"
     maxd = 64 if quick else 200
-    ncfg = 90 if quick else 1500
+    ncfg = 70 if quick else 1500
     for i, cmd in enumerate(_corpus_cmds(exe)):
         bb = vlib.run_batch(chk, "%s %s -maxd %d -out {out}" % (exe, cmd, maxd), model, "fed_corpus%d" % i, timeout=3000)
         if bb:
@@ -215,7 +227,9 @@ def run(chk):
         "pre-fetch mode: the plan-time coordinate of an occurrence on an abstract type is read off the real plan (the planner may "
         "rewrite the abstract selection per possible type); that the planner marks every protected field (HasAuthorizationRule) is "
         "checked by the position walk and the sentinel scan, not proved",
-        "out of the lab's reach: subscriptions (authorizeSubscriptionPreFetch and per-update authorization), @defer payloads, "
+        "out of the lab's reach: subscriptions (authorizeSubscriptionPreFetch and per-update authorization); @defer only on three "
+        "hand-written operations (frames scanned for sentinels, deferred fetches gated; the incremental payloads are not merged and "
+        "compared position by position); "
         "authorizer errors, reasons/wording of errors; the gate theorem covers subscriptions as a non-query operation type",
     ]
 
